@@ -78,3 +78,25 @@ func sends[T any](ch chan T) int { return 0 }
 //@ func Association.sendPayloadData
 //@   at call pendingQueue.push assert#only-when-established{C08,C18} a.state == established
 //@   ensures#rejected-outside-established{C08,C18} old(a.state) != established ==> result != nil && a.pendingQueue.nChunks == old(a.pendingQueue.nChunks)
+
+// ---- C19: Karn's rule, acknowledgement decision ----
+
+//@ func Association.processSelectiveAck
+//@   at call rtoManager.setNewRTT assert#karn-only-first-transmissions{C19} chunkPayload.nSent == 1
+
+//@ func Association.handleHeartbeatAck
+//@   at call rtoManager.setNewRTT assert#sample-from-echoed-timestamp{C19} len(info.heartbeatInformation) == 8
+
+//@ func Association.handlePeerLastTSNAndAcknowledgement
+//@   ensures#immediate-when-asked{C19} sackImmediately ==> a.immediateAckTriggered
+//@   ensures#immediate-on-gap{C19,C05} a.payloadQueue.size() > 0 ==> a.immediateAckTriggered
+//@   ensures#some-ack-is-scheduled{C19,C05} a.immediateAckTriggered || a.delayedAckTriggered
+
+//@ func Association.handleData
+//@   at call Association.handlePeerLastTSNAndAcknowledgement assert#duplicate-acked-at-once{C19} !canPush ==> arg1
+//@   at call Association.handlePeerLastTSNAndAcknowledgement assert#gap-or-ibit-acked-at-once{C19} chunkPayload.immediateSack || sna32GT(chunkPayload.tsn, a.peerLastTSN()+1) || state == shutdownSent ==> arg1
+
+//@ func Association.handleChunksEnd
+//@   ensures#immediate-wins{C19} old(a.immediateAckTriggered) ==> a.ackState == ackStateImmediate && sends(a.awakeWriteLoopCh) != old(sends(a.awakeWriteLoopCh))
+//@   ensures#delayed-otherwise{C19} !old(a.immediateAckTriggered) && old(a.delayedAckTriggered) ==> a.ackState == ackStateDelay
+//@   ensures#untouched{C19} !old(a.immediateAckTriggered) && !old(a.delayedAckTriggered) ==> a.ackState == old(a.ackState)
